@@ -84,3 +84,6 @@ func __fresh[T any](s []T) bool { return true }
 
 // __ghost: value of a ghost event counter defined by ghost-inc clauses (verifier only).
 func __ghost(name string) int { return 0 }
+
+// __result: first (integer-like) result of the last recorded call of <name> (verifier only).
+func __result(name string) int { return 0 }
